@@ -1,11 +1,11 @@
 CONSTANTS
   W = 2
   Limit = 1
-  L = 2
-  Uds = {2}
-  MaxConns = 2
+  L = 1
+  Uds = {1}
+  MaxConns = 3
   MaxFaults = 0
-  MaxCmds = 3
+  MaxCmds = 2
   MaxErrs = 1
   MaxBare = 0
   WakeAt = 2
